@@ -49,6 +49,7 @@ def excused : List (String × String × String) := [
   ("efi/signature.WriteEFIVariableAuthencation2", "log.Fatal", "err := binary.Write(b, binary.LittleEndian, e.Time); err != nil"),
   ("efi/signature.SignEFIVariable", "log.Fatal", "err := binary.Write(&buf, binary.LittleEndian, d); err != nil"),
   ("pkcs7.Attributes.Marshal", "b.BytesOrPanic", ""),
+  ("pkcs7.Attributes.Marshal", "e.BytesOrPanic", ""),
   -- known findings (exported node parsers without an error result):
   ("efi/device.ParseACPIDevicePath", "log.Fatal", "err != nil"),
   ("efi/device.ParseHardwareDevicePath", "log.Fatal", "err != nil"),
